@@ -199,6 +199,28 @@ pub fn run_value(out: &mut Out, r: &mut Rng, v: &Value, po: Po, every_offset: bo
                                  json!({"delivered": hex(&sink.data), "expected_prefix": hex(&expected[..off]), "options": po.code(), "default_printer": default_printer}));
                     }
                 }
+                // one Printer used again after the failure: the failed call delivers the
+                // prefix and reports the failure, the next call delivers exactly the text
+                // of its own value and nothing left over from the failed one
+                {
+                    let mut sink = SchedSink::new(cap, Some(off), hard);
+                    sink.transient = true;
+                    let (r1, r2) = {
+                        let mut printer = lexpr::print::Printer::with_options(&mut sink, po.options());
+                        let r1 = printer.print(v);
+                        let r2 = printer.print(v);
+                        (r1, r2)
+                    };
+                    out.oracle_checks += 1;
+                    let want_res = if hard { "hard" } else { "zero" };
+                    let mut want = expected[..off].to_vec();
+                    want.extend_from_slice(&expected);
+                    if res_name(&r1) != want_res || res_name(&r2) != "ok" || sink.data != want {
+                        out.fail("printer-reuse", format!("a Printer whose first print call failed at offset {} ({}) and which then printed the value again delivered {} bytes with results {} / {}: the second call must deliver exactly the text of its value", off, want_res, sink.data.len(), res_name(&r1), res_name(&r2)),
+                                 format!("sink {} {} {} {} {}", po.code(), cap, off, if hard { 1 } else { 0 }, enc_case_value(v)),
+                                 json!({"delivered": hex(&sink.data), "expected": hex(&want), "options": po.code()}));
+                    }
+                }
             }
         }
     }
